@@ -19,9 +19,9 @@ func readCore(s g.Simulator, m int) []mars.Insn {
 }
 
 func runC11(c *Ctx) {
-	n := int64(numForms) * 4
+	n := int64(numForms) * 32
 	if c.Thorough() {
-		n = int64(numForms) * 48
+		n = int64(numForms) * 1024
 	}
 	c.Cases(n, func(idx int64, r *Rng) {
 		limited := idx%8 != 0 // 1/8 of the cases run with R=W=M for clause (c)
